@@ -403,6 +403,42 @@ func devs265() []dev {
 			s(r).RPS = cp
 		}})
 	}
+	// systematic chains: set0 explicit (1 negative, 1 positive), set1 predicted from set0 with every
+	// (used_by_curr, use_delta) pattern, both signs and two magnitudes, set2 predicted from set1 with all
+	// entries used — the number of flags read for set2 depends on the correct derivation of set1
+	combos := [][2]bool{{true, true}, {false, true}, {false, false}}
+	for _, big := range []bool{false, true} {
+		for sign := 0; sign < 2; sign++ {
+			for abs := uint32(0); abs < 2; abs++ {
+				for a := 0; a < 3; a++ {
+					for b := 0; b < 3; b++ {
+						for c := 0; c < 3; c++ {
+							big, sign, abs, a, b, c := big, sign, abs, a, b, c
+							name := fmt.Sprintf("rps=inter-chain3/big=%v,sign=%d,abs=%d,flags=%d%d%d", big, sign, abs, a, b, c)
+							d = append(d, dev{name, func(r interface{}) {
+								neg := uint32(0)
+								if big {
+									neg = 254
+								}
+								set0 := psenc.RPS{NegDeltaPoc1: []uint32{neg}, NegUsed: []bool{true}, PosDeltaPoc1: []uint32{1}, PosUsed: []bool{true}}
+								set1 := psenc.RPS{Inter: true, DeltaRpsSign: sign == 1, AbsDeltaRps1: abs,
+									UsedByCurr: []bool{combos[a][0], combos[b][0], combos[c][0]}, UseDelta: []bool{combos[a][1], combos[b][1], combos[c][1]}}
+								all := make([]bool, 8)
+								for i := range all {
+									all[i] = true
+								}
+								set2 := psenc.RPS{Inter: true, DeltaRpsSign: false, AbsDeltaRps1: 0, UsedByCurr: append([]bool(nil), all...), UseDelta: append([]bool(nil), all...)}
+								s(r).RPS = []psenc.RPS{set0, set1, set2}
+								if s(r).VUI == nil {
+									s(r).VUI = &psenc.VUI265{Timing: true, NumUnitsInTick: 1001, TimeScale: 30000}
+								}
+							}})
+						}
+					}
+				}
+			}
+		}
+	}
 	d = append(d, dev{"longterm=2", func(r interface{}) { s(r).LongTerm, s(r).LtPocLsb, s(r).LtUsed = true, []uint32{5, 200}, []bool{true, false} }})
 	vui := func(f func(v *psenc.VUI265)) func(interface{}) {
 		return func(r interface{}) {
